@@ -956,6 +956,12 @@ _pixman_bits_image_src_iter_init (pixman_image_t *image, pixman_iter_t *iter)
     iter->get_scanline = _pixman_iter_get_scanline_noop;
 }
 
+/* Number of pixels of the alpha map that are fetched at a time when the
+ * destination has one. The temporary row lives on the stack, so reading
+ * the destination cannot fail for lack of memory.
+ */
+#define ALPHA_MAP_CHUNK 64
+
 static uint32_t *
 dest_get_scanline_narrow (pixman_iter_t *iter, const uint32_t *mask)
 {
@@ -968,25 +974,26 @@ dest_get_scanline_narrow (pixman_iter_t *iter, const uint32_t *mask)
     image->bits.fetch_scanline_32 (&image->bits, x, y, width, buffer, mask);
     if (image->common.alpha_map)
     {
-	uint32_t *alpha;
+	uint32_t alpha[ALPHA_MAP_CHUNK];
+	int offset;
 
-	if ((alpha = malloc (width * sizeof (uint32_t))))
+	x -= image->common.alpha_origin_x;
+	y -= image->common.alpha_origin_y;
+
+	for (offset = 0; offset < width; offset += ALPHA_MAP_CHUNK)
 	{
+	    int n = MIN (ALPHA_MAP_CHUNK, width - offset);
 	    int i;
 
-	    x -= image->common.alpha_origin_x;
-	    y -= image->common.alpha_origin_y;
-
 	    image->common.alpha_map->fetch_scanline_32 (
-		image->common.alpha_map, x, y, width, alpha, mask);
+		image->common.alpha_map, x + offset, y, n, alpha,
+		mask ? mask + offset : NULL);
 
-	    for (i = 0; i < width; ++i)
+	    for (i = 0; i < n; ++i)
 	    {
-		buffer[i] &= ~0xff000000;
-		buffer[i] |= (alpha[i] & 0xff000000);
+		buffer[offset + i] &= ~0xff000000;
+		buffer[offset + i] |= (alpha[i] & 0xff000000);
 	    }
-
-	    free (alpha);
 	}
     }
 
@@ -1006,22 +1013,26 @@ dest_get_scanline_wide (pixman_iter_t *iter, const uint32_t *mask)
 	image, x, y, width, (uint32_t *)buffer, mask);
     if (image->common.alpha_map)
     {
-	argb_t *alpha;
+	argb_t alpha[ALPHA_MAP_CHUNK];
+	int offset;
 
-	if ((alpha = malloc (width * sizeof (argb_t))))
+	x -= image->common.alpha_origin_x;
+	y -= image->common.alpha_origin_y;
+
+	for (offset = 0; offset < width; offset += ALPHA_MAP_CHUNK)
 	{
+	    int n = MIN (ALPHA_MAP_CHUNK, width - offset);
 	    int i;
 
-	    x -= image->common.alpha_origin_x;
-	    y -= image->common.alpha_origin_y;
-
+	    /* The mask is only a hint that lets a fetcher skip pixels;
+	     * none is given for a part of the row.
+	     */
 	    image->common.alpha_map->fetch_scanline_float (
-		image->common.alpha_map, x, y, width, (uint32_t *)alpha, mask);
+		image->common.alpha_map, x + offset, y, n,
+		(uint32_t *)alpha, NULL);
 
-	    for (i = 0; i < width; ++i)
-		buffer[i].a = alpha[i].a;
-
-	    free (alpha);
+	    for (i = 0; i < n; ++i)
+		buffer[offset + i].a = alpha[i].a;
 	}
     }
 
